@@ -163,6 +163,18 @@ func genDagLoopBound(name string, k int) string {
 	return b.String()
 }
 
+// genConstDagStep: a doubling DAG whose leaf is a CONSTANT (so every level evaluates to a
+// number) used as the step of an up-counting and of a down-counting loop.
+func genConstDagStep(name string, k int) string {
+	var b strings.Builder
+	fmt.Fprintf(&b, "func %s(n int) int {\n\ts0 := 1\n", name)
+	for i := 1; i <= k; i++ {
+		fmt.Fprintf(&b, "\ts%d := s%d + s%d\n", i, i-1, i-1)
+	}
+	fmt.Fprintf(&b, "\tt := 0\n\tfor i := n; i > 0; i -= s%d {\n\t\tt += i\n\t}\n\tfor j := 0; j < n; j += s%d {\n\t\tt ^= j\n\t}\n\treturn t\n}\n\n", k, k)
+	return b.String()
+}
+
 // genConstSquaring: x := 3 squared k times, then used as a loop bound. The evaluator works on
 // arbitrary-precision integers: the VALUE doubles in size with every squaring.
 func genConstSquaring(name string, k int) string {
@@ -393,6 +405,7 @@ func fpFamilies() []fpFamily {
 		{name: "dag-in-loop", quick: []int{6, 10, 14, 18, 22}, thor: []int{6, 10, 14, 18, 22, 26, 60, 120}, gen: genDagInLoop},
 		{name: "dag-chain-used-twice", quick: []int{6, 10, 14, 18, 22}, thor: []int{6, 10, 14, 18, 22, 26, 60, 120}, gen: genDagChain2},
 		{name: "dag-as-loop-bound", quick: []int{4, 8, 12, 16}, thor: []int{4, 8, 12, 16, 20}, gen: genDagLoopBound},
+		{name: "const-dag-as-loop-step", quick: []int{8, 12, 16, 20, 24}, thor: []int{8, 12, 16, 20, 24, 32, 44}, gen: genConstDagStep},
 		{name: "const-squaring-as-loop-bound", quick: []int{8, 12, 16, 20, 24}, thor: []int{8, 12, 16, 20, 24, 40, 80}, gen: genConstSquaring},
 		{name: "nested-loops", quick: []int{15, 30, 60, 70, 130}, thor: []int{15, 30, 60, 70, 130, 260}, gen: genNested},
 		{name: "sibling-loops", quick: []int{200, 400, 800, 1600}, thor: []int{100, 200, 400, 800, 1600}, gen: genSiblings},
